@@ -120,6 +120,8 @@ def check_case(case):
             return kind, None
         return kind, ("substitute_unfold_differ", f"{kind}: substituting then unfolding != unfolding then substituting: "
                                                   f"{str(lhs)[:120]} vs {str(rhs)[:120]}")
+    if kind == "convention":
+        return kind, convention_case(obj, case)
     if kind == "poolsum_value":
         # definition of the sum: one term per element of the FULL product of the pools, whatever the summand contains
         import itertools
@@ -247,6 +249,46 @@ def numpy_array_case(index, pseed):
     return None
 
 
+def convention_case(ref, case):
+    """The same field values handed over through another calling convention give the same instance."""
+    c = type(ref)
+    fs = dataclasses.fields(c)
+    values = [getattr(ref, f.name) for f in fs]
+    want_args = tuple(v for f, v in zip(fs, values) if f.metadata.get("sympify"))
+    conv = case["conv"]
+    try:
+        pos = G.construct(c, values, "positional", 0)
+        x = G.construct(c, values, conv, case["perm_seed"])
+    except Exception as e:  # noqa: BLE001
+        return ("convention_constructor_raises", f"{c.__name__} via {conv}: {type(e).__name__}: {str(e)[:120]}")
+    tag = f"{c.__name__}{tuple(values)} built via {conv} (seed {case['perm_seed']})"
+    if tuple(x.args) != want_args:
+        return ("args_not_in_declaration_order", f"{tag}: args = {x.args}, fields in declaration order = {want_args}")
+    for f, v in zip(fs, values):
+        got = getattr(x, f.name)
+        if not (got == v and type(got) is type(v)):
+            return ("field_value_wrong", f"{tag}: {f.name} = {got!r}, given {v!r}")
+    if not (x == pos and pos == x) or hash(x) != hash(pos):
+        return ("same_arguments_unequal", f"{tag} != the positionally built instance (or hashes differ)")
+    if not U.attr_fields(c):
+        r = x.func(*x.args)
+        if r != pos or sp.srepr(r) != sp.srepr(pos):
+            return ("func_args_not_identity", f"{tag}: func(*args) = {r}")
+    syms = sorted(x.free_symbols, key=str)
+    if syms and "doit" in U._mro_dict(c):
+        m = {syms[0]: sp.Symbol("fresh_t", **syms[0].assumptions0)}
+        try:
+            lhs, rhs = timed(lambda: x.xreplace(m).doit()), timed(lambda: pos.doit().xreplace(m))
+            ok = U.same(lhs, rhs)
+        except (Skip, U.Undecided):
+            ok = True
+        except Exception:  # noqa: BLE001
+            ok = True
+        if not ok:
+            return ("substitute_unfold_differ", f"{tag}: xreplace({m}).doit() = {str(lhs)[:80]} but doit().xreplace = {str(rhs)[:80]}")
+    return None
+
+
 def lambda_attrs():
     from ampform.dynamics.phasespace import BreakupMomentumSquared, PhaseSpaceFactor
 
@@ -305,6 +347,19 @@ def gen_cases(seed, n):
         cases.append({"kind": "commute_subs", "ir": tree, "er": [(key, ("N", 0, 1))]})
     for tree in (ps_b, ps_g, ps_n, ps_):
         cases.append({"kind": "poolsum_value", "ir": tree})
+    # calling conventions (positional / keywords in any order / mixed / defaults skipped), library and user classes
+    y_ = ("Y", "Symbol('y')")
+    conv_trees = [("U", "ampform.kinematics.lorentz.BoostZMatrix", [("Y", "Symbol('b')"), ("Y", "Symbol('n')")], []),
+                  ("U", "ampform.kinematics.phasespace.Kallen", [x, y_, s], []),
+                  ("U", bms, [s, m1, m2], [("s", "q")]),
+                  ("U", "ampform.dynamics.form_factor.FormFactor", [s, m1, m2, ("N", 1, 1), ("N", 1, 1)], []),
+                  ("U", "gen_uneval.ShiftedPower", [x, ("N", 0, 1), ("N", 2, 1)], []),
+                  ("U", "gen_uneval.ShiftedPower", [x, y_, ("N", 3, 1)], []),
+                  ("U", "gen_uneval.ScaledWidth", [s, m1, ("N", 1, 1), y_], [("n",)]),
+                  ("U", "gen_uneval.ScaledWidth", [s, m1, ("N", 2, 1), ("N", 0, 1)], [("s", "w")])]
+    for ti, tree in enumerate(conv_trees):
+        for ci, conv in enumerate(G.CONVENTIONS[1:]):
+            cases.append({"kind": "convention", "ir": tree, "conv": conv, "perm_seed": seed * 100 + ti * 7 + ci})
     # distinct callables sharing module.qualname in a non-SymPy attribute: must compare unequal
     edw = "ampform.dynamics.EnergyDependentWidth"
     eargs = [s, ("Y", "Symbol('m0')"), ("Y", "Symbol('w0')"), m1, m2, ("N", 0, 1), ("N", 1, 1)]
@@ -331,7 +386,12 @@ def gen_cases(seed, n):
         obj, ir = g.tree(g.r.choice([1, 2, 2, 3, 3, 4]))
         if U.ir_size(ir) > 300:
             continue
-        k = g.r.choice(["commute", "commute", "commute_subs", "nested", "eq", "eq", "func", "numpy"])
+        k = g.r.choice(["commute", "commute", "commute_subs", "nested", "eq", "eq", "func", "numpy", "convention"])
+        if k == "convention":
+            if ir[0] == "U" and not G.has_unhashable(ir):
+                cases.append({"kind": "convention", "ir": ir, "conv": g.r.choice(G.CONVENTIONS[1:]),
+                              "perm_seed": g.r.randrange(10 ** 6)})
+            continue
         if ir[0] == "A" and ir[1] == G.POOLSUM and g.r.random() < 0.3:
             cases.append({"kind": "poolsum_value", "ir": ir})
             continue
